@@ -71,6 +71,7 @@ class Sched:
         self.aborting = False
         self.local = threading.local()
         self.choices: list = []  # record of (n_enabled, picked index, descr)
+        self.describe = None     # optional: item -> dict of extra fields logged with queue events
 
     # -- task side ---------------------------------------------------------
     def current(self) -> Task:
@@ -265,7 +266,7 @@ class FakeQueue:
         self.s.point(("put", self.name), lambda: [None] if (self.maxsize <= 0 or len(self.items) < self.maxsize) else [])
         self.items.append(_pickle_roundtrip(item))
         self.nput += 1
-        self.s.emit(ev="put", q=self.name, n=self.nput, cls=_cls(item))
+        self.s.emit(ev="put", q=self.name, n=self.nput, cls=_cls(item), **self._descr(item))
 
     def qsize(self) -> int:
         return len(self.items)
@@ -277,8 +278,11 @@ class FakeQueue:
         self.s.point(("get", self.name), lambda: [None] if self.items else [])
         item = self.items.pop(0)
         self.nget += 1
-        self.s.emit(ev="get", q=self.name, n=self.nget, cls=_cls(item))
+        self.s.emit(ev="get", q=self.name, n=self.nget, cls=_cls(item), **self._descr(item))
         return item
+
+    def _descr(self, item) -> dict:
+        return self.s.describe(item) if self.s.describe is not None else {}
 
 
 def _cls(item) -> str:
@@ -336,6 +340,7 @@ class FakeProcess:
                 raise
 
         self.task = self.s.spawn(self.name, body, kind="proc")
+        self.s.emit(ev="spawn", proc=self.name)
         self.s.point(("spawned", self.name))
 
     def join(self, timeout=None) -> None:
@@ -344,10 +349,11 @@ class FakeProcess:
 
     def terminate(self) -> None:
         """SIGTERM: the child dies wherever it is (user-space buffers are lost)."""
-        if self.task is not None and not self.task.done:
+        alive = self.task is not None and not self.task.done
+        self.s.emit(ev="terminate", proc=self.name, alive=alive)
+        if alive:
             self.task.killed = True
             self.exitcode = -15
-            self.s.emit(ev="terminate", proc=self.name)
 
     kill = terminate
 
@@ -454,7 +460,15 @@ class FakePool:
         communicate through queues); results returned in order; the first
         exception is re-raised in the caller after all tasks finished (like
         Pool.map)."""
-        return self.map_async(func, iterable, chunksize).get()
+        tasks = list(iterable)
+        self.s.emit(ev="mapcall", nt=len(tasks))
+        failed = True
+        try:
+            out = self.map_async(func, tasks, chunksize).get()
+            failed = False
+            return out
+        finally:
+            self.s.emit(ev="mapret", nt=len(tasks), failed=failed)
 
     def starmap(self, func, iterable, chunksize=None):
         return self.map(_Star(func), iterable, chunksize)
@@ -489,6 +503,7 @@ class FakePool:
                     raise
                 except BaseException as exc:
                     errors[i] = exc
+                    self.s.emit(ev="taskerr", exc=type(exc).__name__)
 
             return body
 
@@ -604,11 +619,12 @@ class MultiprocessingPatch:
         return None
 
 
-def run_main(fn, *, chooser=None, seed: int = 0, order_source=None, max_steps: int = 200000):
+def run_main(fn, *, chooser=None, seed: int = 0, order_source=None, max_steps: int = 200000, describe=None):
     """Run ``fn`` as the main task under the fake multiprocessing runtime.
     Returns (sched, outcome) with outcome = ("ok", result) | ("raised", exc) |
     ("deadlock", waiting)."""
     s = Sched(chooser=chooser, seed=seed, max_steps=max_steps)
+    s.describe = describe
     with MultiprocessingPatch(s, order_source):
         main = s.spawn("main", fn, kind="main")
         try:
